@@ -400,11 +400,14 @@ func ruleOPT2(p *Program) *RuleResult {
 	if err != nil {
 		return r.anchorFail(err)
 	}
+	// the variable lookup (in Evaluate or a helper of the package it delegates to)
 	var lk *ssa.Lookup
-	for _, b := range ece.Blocks {
-		for _, ins := range b.Instrs {
-			if x, ok := ins.(*ssa.Lookup); ok && x.CommaOk {
-				lk = x
+	for _, f := range withPackageCallees(ece, 2) {
+		for _, b := range f.Blocks {
+			for _, ins := range b.Instrs {
+				if x, ok := ins.(*ssa.Lookup); ok && x.CommaOk && lk == nil {
+					lk = x
+				}
 			}
 		}
 	}
@@ -462,17 +465,20 @@ func ruleOPT3(p *Program) *RuleResult {
 		return r.anchorFail(err)
 	}
 	seeds := map[string]ssa.Value{}
-	for _, b := range ic.Blocks {
-		for _, ins := range b.Instrs {
-			if mu, ok := ins.(*ssa.MapUpdate); ok {
-				if k, ok := constString(mu.Key); ok {
-					seeds[k] = mu.Value
+	for _, f := range withPackageCallees(ic, 2) {
+		for _, b := range f.Blocks {
+			for _, ins := range b.Instrs {
+				if mu, ok := ins.(*ssa.MapUpdate); ok {
+					if k, ok := constString(mu.Key); ok {
+						seeds[k] = mu.Value
+					}
 				}
 			}
 		}
 	}
 	r.count("seeds", len(seeds))
-	if v, ok := seeds["context"]; ok && stripIface(v) == ssa.Value(ic.Params[0]) {
+	// (a helper's parameter stands for the argument at its single call site)
+	if v, ok := seeds["context"]; ok && resolveParam(stripIface(v)) == ssa.Value(ic.Params[0]) {
 		r.ok("InitializeContext|context", "%context is the input collection", p.pos(ic.Pos()), "the map value is the function's parameter", true)
 	} else {
 		r.bad("InitializeContext|context", "%context is not seeded with the input collection", p.pos(ic.Pos()), "%context must be the input collection")
